@@ -4,6 +4,7 @@ package main
 
 import (
 	"bytes"
+	"context"
 	"encoding/json"
 	"encoding/xml"
 	"errors"
@@ -12,10 +13,13 @@ import (
 	"math"
 	"math/big"
 	"math/rand"
+	"net/http"
+	"os"
 	"reflect"
 	"sort"
 	"strconv"
 	"strings"
+	"syscall"
 
 	"github.com/go-openapi/runtime"
 	"github.com/go-openapi/runtime/yamlpc"
@@ -35,7 +39,7 @@ import (
 
 type c15Step struct {
 	C Bs  `json:"c"`
-	T int `json:"t,omitempty"` // 0 no terminal, 1 io.EOF, n >= 2 scripted error number n
+	T int `json:"t,omitempty"` // 0 no terminal, 1 io.EOF, 2..99 scripted error number n, >= 100 a library error VALUE (c15LibErrs)
 }
 
 type c15WStep struct {
@@ -49,12 +53,70 @@ func (e *c15ScriptErr) Error() string { return fmt.Sprintf("scripted error %d", 
 
 var c15ErrTable = map[int]*c15ScriptErr{}
 
+// c15TimeoutErr is a net.Error-like value (Timeout / Temporary answer true).
+type c15TimeoutErr struct{}
+
+func (*c15TimeoutErr) Error() string   { return "i/o timeout" }
+func (*c15TimeoutErr) Timeout() bool   { return true }
+func (*c15TimeoutErr) Temporary() bool { return true }
+
+// c15LibErrs: error VALUES that real streams report (error number c15LibBase + index). A codec has to hand each of them
+// back like any other read / write error: the sentinels of io (what net/http reports for a body shorter than its
+// Content-Length, compress/* for a truncated stream), errors WRAPPING a sentinel (io.EOF included: only io.EOF itself ends a
+// stream), context / deadline / connection errors. The Coq side sees the io sentinels under their own constructor and the
+// others as one more scripted error identified by its number; all are classified by identity.
+const c15LibBase = 100
+
+var c15LibErrs = []struct {
+	e   error
+	coq string // "" = EScript <number>
+}{
+	{io.ErrUnexpectedEOF, "EUnexpectedEOF"},
+	{io.ErrNoProgress, "ENoProgress"},
+	{io.ErrShortWrite, "EShortWrite"},
+	{io.ErrClosedPipe, ""},
+	{fmt.Errorf("read body: %w", io.ErrUnexpectedEOF), ""},
+	{fmt.Errorf("read body: %w", io.EOF), ""},
+	{os.ErrDeadlineExceeded, ""},
+	{context.Canceled, ""},
+	{context.DeadlineExceeded, ""},
+	{http.ErrBodyReadAfterClose, ""},
+	{&c15TimeoutErr{}, ""},
+	{fmt.Errorf("read tcp: %w", syscall.ECONNRESET), ""},
+	{io.ErrShortBuffer, ""},
+	{&os.PathError{Op: "read", Path: "/dev/stdin", Err: io.ErrUnexpectedEOF}, ""},
+}
+
+// c15CoqErrNum prints error number n (n >= 1) as a term of StreamScripts.err.
+func c15CoqErrNum(n int) string {
+	if n == 1 {
+		return "EOF"
+	}
+	if n >= c15LibBase && n < c15LibBase+len(c15LibErrs) && c15LibErrs[n-c15LibBase].coq != "" {
+		return c15LibErrs[n-c15LibBase].coq
+	}
+	return fmt.Sprintf("(EScript %d)", n)
+}
+
+// c15DrawWErr: the error of a failing Write: a scripted error, one time in three a library error value.
+func c15DrawWErr(r *rand.Rand) int {
+	if r.Intn(3) == 0 {
+		return c15DrawLibErr(r)
+	}
+	return 2 + r.Intn(5)
+}
+
+func c15DrawLibErr(r *rand.Rand) int { return c15LibBase + r.Intn(len(c15LibErrs)) }
+
 func c15Err(n int) error {
 	switch n {
 	case 0:
 		return nil
 	case 1:
 		return io.EOF
+	}
+	if n >= c15LibBase && n < c15LibBase+len(c15LibErrs) {
+		return c15LibErrs[n-c15LibBase].e
 	}
 	if e, ok := c15ErrTable[n]; ok {
 		return e
@@ -341,6 +403,11 @@ func c15ErrClass(err error, jerr string) string {
 	if se, ok := err.(*c15ScriptErr); ok {
 		return fmt.Sprintf("(EScript %d)", se.n)
 	}
+	for i, le := range c15LibErrs {
+		if err == le.e {
+			return c15CoqErrNum(c15LibBase + i)
+		}
+	}
 	switch err {
 	case io.EOF:
 		return "EOF"
@@ -478,7 +545,7 @@ func c15CoqErrOpt(n int) string {
 	if n == 0 {
 		return "None"
 	}
-	return fmt.Sprintf("(Some (EScript %d))", n)
+	return fmt.Sprintf("(Some %s)", c15CoqErrNum(n))
 }
 
 func c15CoqWState(steps []c15WStep, pre string) string {
@@ -626,10 +693,8 @@ func c15CoqSteps(steps []c15Step) string {
 	return coqList(steps, func(s c15Step) string {
 		t := "None"
 		switch {
-		case s.T == 1:
-			t = "(Some EOF)"
-		case s.T >= 2:
-			t = fmt.Sprintf("(Some (EScript %d))", s.T)
+		case s.T >= 1:
+			t = fmt.Sprintf("(Some %s)", c15CoqErrNum(s.T))
 		}
 		return coqPair(coqBytes(string(s.C)), t)
 	})
@@ -1788,6 +1853,9 @@ func c15Script(r *rand.Rand, content string) ([]c15Step, string) {
 		}
 		steps := c15Cut(r, b[:k], r.Intn(2)*4, false)
 		e := 2 + r.Intn(5)
+		if r.Intn(2) == 0 { // the VALUE of the error matters to careless code: half the faults carry a library error value
+			e = c15DrawLibErr(r)
+		}
 		if shape == 5 || len(steps) == 0 {
 			steps = append(steps, c15Step{T: e})
 		} else {
@@ -1844,7 +1912,7 @@ func c15WScript(r *rand.Rand, total int) ([]c15WStep, string) {
 		if total > 0 {
 			a = r.Intn(total + 1)
 		}
-		return append(steps, c15WStep{A: a, E: 2 + r.Intn(5)}), "write-error"
+		return append(steps, c15WStep{A: a, E: c15DrawWErr(r)}), "write-error"
 	case 4: // short count without error (breaks the io.Writer contract)
 		var steps []c15WStep
 		for j := r.Intn(2); j > 0; j-- {
@@ -1856,9 +1924,9 @@ func c15WScript(r *rand.Rand, total int) ([]c15WStep, string) {
 		}
 		return append(steps, c15WStep{A: a}), "short-no-error"
 	case 5: // error although everything was accepted
-		return []c15WStep{{A: 5000, E: 2 + r.Intn(5)}}, "full-with-error"
+		return []c15WStep{{A: 5000, E: c15DrawWErr(r)}}, "full-with-error"
 	case 6: // error on the first call, nothing accepted
-		return []c15WStep{{A: 0, E: 2 + r.Intn(5)}}, "write-error"
+		return []c15WStep{{A: 0, E: c15DrawWErr(r)}}, "write-error"
 	default:
 		return []c15WStep{{A: 5000}, {A: 5000}, {A: 5000}}, "accepting"
 	}
@@ -2082,6 +2150,45 @@ func (c15) Enumerate(tier string) []any {
 				if src == "binmar" || src == "textmar" || c15MultiHasRet(src) {
 					out = append(out, c15In{Kind: "produce", Codec: codec, CloseOpt: closeOpt, Closable: true, Src: src, Content: Bs(content), Ret: 7, Script: "direct/accepting"})
 				}
+			}
+		}
+	}
+	// every library error value (c15LibErrs) as the fault of a read: before the first byte, inside, after the last byte; reported by a
+	// call of its own or together with data; into the main destination kinds of both codecs, and as the fault of a payload reader and
+	// of a Write of the producers
+	for li := range c15LibErrs {
+		e := c15LibBase + li
+		for ki, k := range []int{0, 3, len(content)} {
+			for di, dest := range []string{"ptr_string", "ptr_bytes", "textunm", "buffer", "writer", "binunm", "any_string", "ptr_named_string"} {
+				if tier == "quick" && di >= 5 && (li+ki+di)%3 != 0 {
+					continue
+				}
+				for ci, codec := range []string{"bytestream", "text"} {
+					in := c15In{Kind: "consume", Codec: codec, Closable: true, Dest: dest, Script: "lib-error-at-offset"}
+					if (li+ki+di+ci)%2 == 0 || k == 0 {
+						in.Steps = append(c15OneByteSteps([]byte(content[:k])), c15Step{T: e}, c15Step{C: Bs(content[k:])})
+					} else {
+						in.Steps = []c15Step{{C: Bs(content[:k]), T: e}, {C: Bs(content[k:])}}
+					}
+					in.CloseOpt = codec == "bytestream" && (li+di)%4 == 0
+					if (li+ki+di)%5 == 0 {
+						in.Pre, in.WPre = "OLD", "OLD"
+					}
+					out = append(out, in)
+				}
+			}
+			out = append(out, c15In{Kind: "produce", Codec: "bytestream", CloseOpt: ki == 1, Closable: true, Src: "reader", PClos: li%2 == 0,
+				Steps: []c15Step{{C: Bs(content[:k]), T: e}, {C: Bs(content[k:])}}, Script: "lib-error-at-offset/accepting"})
+		}
+		for _, codec := range []string{"bytestream", "text"} {
+			for _, src := range []string{"bytes", "string", "buffer", "reader"} {
+				in := c15In{Kind: "produce", Codec: codec, Closable: true, Src: src, WSteps: []c15WStep{{A: 2, E: e}}, Script: "direct/lib-write-error"}
+				if src == "reader" {
+					in.Steps, in.Script = scripts[1].steps, "one-chunk/lib-write-error"
+				} else {
+					in.Content = Bs(content)
+				}
+				out = append(out, in)
 			}
 		}
 	}
